@@ -210,6 +210,22 @@ func vRaceSession(k *vCaller, w vRaceWorkload, cycle int, dir string, reconfigur
 		return false
 	}
 	nap()
+	if w.name == "triangle-long-blocks" {
+		// few requests, long blocks: what matters here is what one long block makes the pipeline emit
+		all := []int{0, 1}
+		fts := FullTriggerState{ChannelIndices: all}
+		fts.AutoTrigger = true
+		k.must("ConfigureTriggers", &fts, &okay)
+		wc := WriteControlConfig{Request: "START", Path: dir, WriteLJH22: true}
+		k.must("WriteControl", &wc, &okay)
+		for i := 0; i < 5; i++ {
+			time.Sleep(time.Second)
+			k.must("SendAllStatus", &s, &okay)
+		}
+		k.must("WriteControl", &WriteControlConfig{Request: "STOP"}, &okay)
+		k.must("Stop", &s, &okay)
+		return true
+	}
 	nsamp, npre := 64, 16
 	k.must("ConfigurePulseLengths", SizeObject{Nsamp: nsamp, Npre: npre}, &okay)
 	all := make([]int, w.nchan)
@@ -223,6 +239,19 @@ func vRaceSession(k *vCaller, w vRaceWorkload, cycle int, dir string, reconfigur
 	fts.EdgeTrigger, fts.EdgeRising, fts.EdgeLevel = true, true, 50
 	k.must("ConfigureTriggers", &fts, &okay)
 	nap()
+	// edge-multi on the last channel (the RPC-compatible fields; its search state is rewritten on every block)
+	emt := FullTriggerState{ChannelIndices: []int{w.nchan - 1}}
+	emt.EdgeMulti = true
+	emt.EdgeMultiLevel = 30
+	emt.EdgeMultiVerifyNMonotone = 1
+	emt.EdgeMultiMakeShortRecords = cycle%2 == 1
+	k.must("ConfigureTriggers", &emt, &okay)
+	nap()
+	// and a change on another channel while edge-multi is running
+	one := FullTriggerState{ChannelIndices: []int{0}}
+	one.AutoTrigger = true
+	one.AutoDelay = time.Millisecond
+	k.must("ConfigureTriggers", &one, &okay)
 	if w.nchan >= 3 {
 		gts := GroupTriggerState{Connections: map[int][]int{0: {1, 2}}}
 		k.must("AddGroupTriggerCoupling", gts, &okay)
@@ -241,7 +270,7 @@ func vRaceSession(k *vCaller, w vRaceWorkload, cycle int, dir string, reconfigur
 		pd[i] = r.NormFloat64() / float64(nsamp)
 		bd[i] = r.NormFloat64()
 	}
-	for _, ch := range []int{0, w.nchan - 1} {
+	for _, ch := range []int{0, 1} { // not the edge-multi channel: projections of variable-length records are not implemented (the code panics)
 		pbo := ProjectorsBasisObject{ChannelIndex: ch, ProjectorsBase64: vMatB64(mat.NewDense(nb, nsamp, pd)), BasisBase64: vMatB64(mat.NewDense(nsamp, nb, bd)), ModelDescription: "verif"}
 		k.must("ConfigureProjectorsBasis", &pbo, &okay)
 	}
@@ -393,6 +422,7 @@ func vRunRace(c *vCase) {
 		{name: "abaco-udp", mode: 'A', source: "ABACOSOURCE", nchan: 5},
 		{name: "lancero-card", mode: 'B', source: "LANCEROSOURCE", nchan: 12, lancero: true},
 		{name: "abaco-scripted", mode: 'B', source: "ABACOSOURCE", nchan: 5},
+		{name: "triangle-long-blocks", mode: 'A', source: "TRIANGLESOURCE", nchan: 2},
 	}
 	w := workloads[c.Idx%len(workloads)]
 	c.Describe("workload=%s seed=%d idx=%d", w.name, c.Seed, c.Idx)
@@ -416,6 +446,13 @@ func vRunRace(c *vCase) {
 		k.client = e.client
 		reconfigure = func() bool {
 			return k.must("ConfigureTriangleSource", &TriangleSourceConfig{Nchan: w.nchan, SampleRate: 200000, Min: 100, Max: 600}, &okay)
+		}
+	case "triangle-long-blocks":
+		// 2.2 s blocks: one block crosses two of the 1-second trigger-rate reporting boundaries
+		k.client = e.client
+		cycles = 1
+		reconfigure = func() bool {
+			return k.must("ConfigureTriangleSource", &TriangleSourceConfig{Nchan: w.nchan, SampleRate: 1000, Min: 100, Max: 1200}, &okay)
 		}
 	case "simpulse":
 		k.client = e.client
@@ -492,17 +529,17 @@ func init() {
 	vRegister("C17", &vProp{
 		Cases: func(tier string) int {
 			if tier == "thorough" {
-				return 100
+				return 120
 			}
-			return 15
+			return 18
 		},
 		Setup: vRaceSetup,
 		Run:   vRunRace,
 		Meta: vMeta{Level: "exploration",
-			Rule: "case = one workload (triangle, simpulse, abaco over loopback UDP against the real RunRPCServer via one JSON-RPC connection; scripted Lancero card, scripted two-producer Abaco against an in-package SourceControl wired like RunRPCServer) x one yield seed: two start/stop cycles, each with pulse-length change, edge+level+auto triggers on all channels, group-trigger connections, err->fb coupling and mix changes (Lancero), projectors on two channels, START of LJH2.2+LJH3+OFF writing, state label, comment write/read, two raw-data blocks, SENDALL, PAUSE/UNPAUSE, STOP, while RunClientUpdater publishes and saves the configuration every 30 ms; verifPoint sites yield or sleep pseudo-randomly. The binary is race-instrumented; every DATA RACE report with a repository frame is a violation (de-duplicated by the pair of innermost/outermost repository functions); non-trivial = workload ran without a failed request",
+			Rule: "case = one workload (triangle, triangle with 2.2 s blocks, simpulse, abaco over loopback UDP against the real RunRPCServer via one JSON-RPC connection; scripted Lancero card, scripted two-producer Abaco against an in-package SourceControl wired like RunRPCServer) x one yield seed: two start/stop cycles, each with pulse-length change, edge+level+auto triggers on all channels, edge-multi on one channel, group-trigger connections, err->fb coupling and mix changes (Lancero), projectors on two channels, START of LJH2.2+LJH3+OFF writing, state label, comment write/read, two raw-data blocks, SENDALL, PAUSE/UNPAUSE, STOP, while RunClientUpdater publishes and saves the configuration every 30 ms; verifPoint sites yield or sleep pseudo-randomly. The binary is race-instrumented; every DATA RACE report with a repository frame is a violation (de-duplicated by the pair of innermost/outermost repository functions); non-trivial = workload ran without a failed request",
 			Assumptions: []string{"only executed accesses are seen; libzmq (cgo) is not instrumented", "single client: one JSON-RPC connection or one calling goroutine"},
 			Guards: map[string]map[string]int{
-				"quick":    {"blocks_processed": 300, "requests_issued": 300, "yields_injected": 500, "output_files_written": 50, "config_saves": 5, "raw_block_requests": 20, "raw_blocks_completed": 20, "workload_triangle": 1, "workload_simpulse": 1, "workload_abaco-udp": 1, "workload_lancero-card": 1, "workload_abaco-scripted": 1},
+				"quick":    {"blocks_processed": 300, "requests_issued": 300, "yields_injected": 500, "output_files_written": 50, "config_saves": 5, "raw_block_requests": 20, "raw_blocks_completed": 20, "workload_triangle": 1, "workload_simpulse": 1, "workload_abaco-udp": 1, "workload_lancero-card": 1, "workload_abaco-scripted": 1, "workload_triangle-long-blocks": 1},
 				"thorough": {"blocks_processed": 3000, "requests_issued": 3000},
 			}},
 	})
